@@ -1,3 +1,7 @@
 import Guard.Model.Basic
 import Guard.Model.Value
 import Guard.Model.Compare
+import Guard.Model.Ast
+import Guard.Model.Ops
+import Guard.Model.Functions
+import Guard.Model.Eval
